@@ -155,6 +155,17 @@ def _frame(hists, latest, recorded, dtype):
     return df
 
 
+def _blank(df, all_cells):
+    """the same versions with the cells of vote-less versions left blank, as a feed writes a unit that has not reported"""
+    import numpy as np
+
+    out = df.copy()
+    zero = (out.results_turnout == 0) & (out.results_dem == 0) & (out.results_gop == 0)
+    cols = ["results_dem", "results_gop", "results_weights", "results_margin", "results_normalized_margin"] + (["results_turnout"] if all_cells else [])
+    out.loc[zero, cols] = np.nan
+    return out
+
+
 def evaluate(case):
     import warnings
 
@@ -192,47 +203,60 @@ def evaluate(case):
                     hists = [("0100", hist)] + ([("0200" if (si + li) // 3 % 2 == 0 else "0050", fillers[fk])] if two else [])
                     if two:
                         cov[f"two_unit_frames_companion_{['regular', 'downward_revision', 'impossible_batch'][fk]}"] += 1
-                    df = _frame(hists, latest, recorded, dtype)
-                    with warnings.catch_warnings():
-                        warnings.simplefilter("ignore")
-                        try:
-                            res = h.compute_versioned_margin_estimate(data=df)
-                        except Exception as e:
-                            viol(f"raised:{dtype}", f"hist={hist} latest={latest} {recorded} {dtype}: {type(e).__name__}: {e}")
-                            continue
-                    runs += 1
-                    got = res[res.geographic_unit_fips == "0100"]
-                    ctx = f"history(dem,gop,other)={hist} latest_percent={latest} recorded={recorded} dtype={dtype} units={len(hists)}"
-                    ref = reference(hist, latest)
-                    sigsuffix = ""
-                    if dtype == "int":
-                        tref = reference(hist, latest, truncated=True)
-                        if not _matches(got, tref):
-                            if _matches(got, ref):
-                                pass
-                            else:
-                                viol("int-dtype:neither-exact-nor-truncated", f"{ctx}: output matches neither the exact nor the truncated-percent reference")
+                    df0 = _frame(hists, latest, recorded, dtype)
+                    # how the frame reaches the method (as the argument / as the handler's own frame, which is how the
+                    # bootstrap model calls it) and how a version without votes is written in the file (zeros / blank
+                    # cells / turnout 0 with blank candidate cells) are not information
+                    own = (si + li + (dtype == "int")) % 2 == 1
+                    variants = [("own" if own else "arg", "zeros", df0)]
+                    if dtype == "float" and any(d == 0 and g == 0 and o == 0 for d, g, o in hist) and recorded == "consistent":
+                        variants += [("own", "blank", _blank(df0, True)), ("arg", "blank", _blank(df0, True)), ("own", "blank-candidates", _blank(df0, False))]
+                    for path, written, df in variants:
+                        with warnings.catch_warnings():
+                            warnings.simplefilter("ignore")
+                            try:
+                                if path == "own":
+                                    h.data = df
+                                    res = h.compute_versioned_margin_estimate()
+                                else:
+                                    res = h.compute_versioned_margin_estimate(data=df)
+                            except Exception as e:
+                                viol(f"raised:{dtype}", f"hist={hist} latest={latest} {recorded} {dtype} frame passed as {path}, vote-less versions written as {written}: {type(e).__name__}: {e}")
                                 continue
-                        elif not _matches(got, ref):
-                            viol("int-dtype-turnout:rescaled-percent-truncated", f"{ctx}: integer count columns: intermediate percents are truncated to 0, e.g. rows {_first_diff(got, ref)}")
-                            cov["int_truncation_visible"] += 1
-                            continue
-                    else:
-                        why = _mismatch(got, ref)
-                        if why:
-                            viol(why[0], f"{ctx}: {why[1]}")
-                            continue
-                    if ref[0] == "irregular":
-                        cov["irregular_" + ref[1].split()[0]] += 1
-                        nontrivial = True
-                    else:
-                        cov["regular"] += 1
-                        if len({d + g + o for d, g, o in hist}) >= 2:
+                        runs += 1
+                        cov[f"frame_{path}_{written}"] += 1
+                        got = res[res.geographic_unit_fips == "0100"]
+                        ctx = f"history(dem,gop,other)={hist} latest_percent={latest} recorded={recorded} dtype={dtype} units={len(hists)} frame passed as {path}, vote-less versions written as {written}"
+                        ref = reference(hist, latest)
+                        sigsuffix = ""
+                        if dtype == "int":
+                            tref = reference(hist, latest, truncated=True)
+                            if not _matches(got, tref):
+                                if _matches(got, ref):
+                                    pass
+                                else:
+                                    viol("int-dtype:neither-exact-nor-truncated", f"{ctx}: output matches neither the exact nor the truncated-percent reference")
+                                    continue
+                            elif not _matches(got, ref):
+                                viol("int-dtype-turnout:rescaled-percent-truncated", f"{ctx}: integer count columns: intermediate percents are truncated to 0, e.g. rows {_first_diff(got, ref)}")
+                                cov["int_truncation_visible"] += 1
+                                continue
+                        else:
+                            why = _mismatch(got, ref)
+                            if why:
+                                viol(why[0], f"{ctx}: {why[1]}")
+                                continue
+                        if ref[0] == "irregular":
+                            cov["irregular_" + ref[1].split()[0]] += 1
                             nontrivial = True
-                            cov["regular_with_interpolation"] += 1
-                        if any(len({e for e, _, _ in acc}) > 1 for acc in ref[1].values()):
-                            cov["knife_edge_rows"] += 1
-                    outs.append(ref[0])
+                        else:
+                            cov["regular"] += 1
+                            if len({d + g + o for d, g, o in hist}) >= 2:
+                                nontrivial = True
+                                cov["regular_with_interpolation"] += 1
+                            if any(len({e for e, _, _ in acc}) > 1 for acc in ref[1].values()):
+                                cov["knife_edge_rows"] += 1
+                        outs.append(ref[0])
     return {"violations": V, "cov": dict(cov), "outcome": sha(outs)[:16], "nontrivial": nontrivial, "transitions": max(1, runs)}
 
 
